@@ -345,7 +345,8 @@ class World:
             'policy_fifo', 'budget_exhausted', 'budget_binding',
             'scale_down', 'prompt_evals', 'lagging_evals',
             'stale_view_action', 'liveness_stretches', 'converged',
-            'deadline_checks', 'resumed_after_suspension', 'natural_404',
+            'deadline_checks', 'deadline_checks_after_wait',
+            'resumed_after_suspension', 'natural_404',
             'natural_400', 'external_spawn', 'kills', 'alerts',
             'reconfigured')}
         for kind in FAIL_KINDS:
@@ -398,6 +399,8 @@ class World:
         deleted = (event is not None and event.type == 'DELETED') or \
             stat is None
         if deleted:
+            # a suspension belongs to the monitor that was deleted
+            self.told.susp_safe.pop(name, None)
             self.log.ev('told-deleted', name)
             return
         try:
@@ -800,18 +803,22 @@ class World:
                 t_need = t_start + (missing - tok0) / rate
         self.stretch[app] = {'epoch': self.epoch, 'target': mon[0],
                              'since': ev['idx'], 't_need': t_need,
-                             'missing': missing, 'after': 0}
+                             'missing': missing, 'after': 0,
+                             'waits': t_need > ev['t0']}
         self.probes['liveness_stretches'] += 1
 
     def _stretch_end(self, app, ev, live_after, stale_cfg, conf):
         st = self.stretch.get(app)
         if st is None:
             return
+        if ev['t0'] >= st['t_need']:
+            self.probes['deadline_checks'] += 1
+            if st['waits']:
+                self.probes['deadline_checks_after_wait'] += 1
         if live_after == st['target']:
             return
         if ev['t0'] >= st['t_need']:
             st['after'] += 1
-            self.probes['deadline_checks'] += 1
         if st['after'] >= LIVENESS_SLACK_EVALS:
             self.fail(
                 'C20:no-convergence' + (':monitor-config-not-watched'
@@ -1187,11 +1194,27 @@ class MonitorSim(enginemod.Engine):
             'restclient.post either fails before the request is applied or '
             'the request is applied exactly once (its internal retry of 5xx /'
             ' connection errors is not simulated)',
-            'token-bucket reference: rate 2*target/hour and non-negativity '
-            'from the statement; burst 2*target, full bucket at every '
-            '(re)configuration delivered to the monitor, only acknowledged '
-            'creations charged, 300 s suspension after 404/400/424 from the '
-            'code (sproc/appmonitor.py:32-36,91-97,144-159,254-260)',
+            'token-bucket reference (independent, continuous in virtual '
+            'time): rate 2*target/hour, request <= floor(tokens) and '
+            'non-negativity from the statement; burst (cap) 2*target, full '
+            'bucket at every (re)configuration event delivered to the '
+            'monitor (any write to the monitor node, same count or not) and '
+            'at process start, only acknowledged creations charged (failed '
+            'and lost-ack creations are not), refill continues while '
+            'suspended, 300 s suspension after 404/400/424 from the code '
+            '(sproc/appmonitor.py:32-36,80-97,116-119,144-162,254-260); no '
+            'boundary is left open beyond 1e-6 tokens of float noise',
+            'all bounds are stated in what the monitor has been told through '
+            'its watches (children lists and node data as delivered), not '
+            'in the ZooKeeper truth: acting on a stale view is legal; a '
+            'monitor counts as deleted for the monitor once a children list '
+            'without it was delivered',
+            'bounded liveness: while every queued watch event is delivered '
+            'before each evaluation, no failure is pending, the application '
+            'is configured and the world does not change, the live count '
+            'must equal the target in ZooKeeper at the latest at the third '
+            'evaluation that starts after max(now, end of suspension) + '
+            'max(0, missing - tokens)/rate',
         ]
 
     def quick_runs(self, prop):
